@@ -49,6 +49,11 @@ def norm(v):
         pass
     if isinstance(v, probe.Bomb):
         return repr(v)
+    if type(v).__name__ == "DataFrame":
+        try:
+            return "<DataFrame x=%s>" % [int(x) for x in v["x"]]
+        except Exception:
+            return "<DataFrame>"
     if callable(v) and hasattr(v, "__name__"):
         return "<fn %s>" % v.__name__
     return "<%s>" % type(v).__name__
@@ -107,6 +112,9 @@ class World:
             return getattr(probe, vs["v"])
         if t == "bomb":
             return probe.Bomb(vs["v"])
+        if t == "frame":
+            import pandas as pd
+            return pd.DataFrame({"x": list(vs["v"])})
         if t == "obj":
             s = self.space(vs["space"]) if vs.get("space") else self.m
             if vs.get("cells"):
@@ -208,6 +216,10 @@ class World:
     def op_set_ref(self, op):
         s = self.space(op["space"]) if op.get("space") else self.m
         v = self.value(op["value"])
+        if op.get("pandas_path"):
+            # the value is bound together with a PandasData spec (a file of its own inside the saved model)
+            s.new_pandas(op["name"], op["pandas_path"], v, file_type="csv")
+            return
         if op.get("mode") and op.get("space"):
             s.set_ref(op["name"], v, refmode=op["mode"])
         else:
